@@ -91,12 +91,17 @@ def compile_unit(unit, outdir, san, extra):
     return obj
 
 
-def build(prop_id, cfg, fuzz=False):
-    """Compile everything the property needs from the current tree."""
-    outdir = os.path.join(BUILD, prop_id, "fuzz" if fuzz else "obj")
+def build(prop_id, cfg, fuzz=False, variant=None):
+    """Compile everything the property needs from the current tree.
+    variant: a dict from cfg["variants"] (own harness/units/sanitizer set, own executable)."""
+    if variant:
+        cfg = dict(cfg, **{k: v for k, v in variant.items() if k in ("harness", "units", "ldflags", "harness_flags")})
+    outdir = os.path.join(BUILD, prop_id, ("obj-" + variant["name"]) if variant else ("fuzz" if fuzz else "obj"))
     shutil.rmtree(outdir, ignore_errors=True)
     os.makedirs(outdir, exist_ok=True)
     san = list(SAN) + cfg.get("san_extra", [])
+    if variant and variant.get("san"):
+        san = list(variant["san"])
     extra = []
     if fuzz:
         san = ["-fsanitize=fuzzer-no-link,address,undefined",
@@ -137,8 +142,11 @@ def build(prop_id, cfg, fuzz=False):
             r = sh(["objcopy", "--redefine-syms=" + mapf, o])
             if r.returncode != 0:
                 raise BuildError("objcopy failed on %s\n%s" % (o, r.stdout))
-    exe = os.path.join(BUILD, prop_id, "fuzzer" if fuzz else "harness")
-    link = [CXX] + (["-fsanitize=fuzzer,address,undefined"] if fuzz else SAN[:1]) + objs + \
+    exe = os.path.join(BUILD, prop_id, ("harness-" + variant["name"]) if variant else ("fuzzer" if fuzz else "harness"))
+    link_san = ["-fsanitize=fuzzer,address,undefined"] if fuzz else SAN[:1]
+    if variant and variant.get("san"):
+        link_san = [x for x in variant["san"] if x.startswith("-fsanitize=")]
+    link = [CXX] + link_san + objs + \
         ["-o", exe] + expand_flags(cfg.get("ldflags", []))
     r = sh(link)
     if r.returncode != 0:
@@ -160,7 +168,14 @@ def load_known(prop_id):
     return known, fixed
 
 
+VARIANT_EXE = {}  # (prop_id, target name) -> executable of the variant that owns the target
+
+
 def run_replay(exe, prop_id, path, known_ids, errdir):
+    for line in open(path, errors="replace"):
+        if line.startswith("target "):
+            exe = VARIANT_EXE.get((prop_id, line.split(" ", 1)[1].strip()), exe)
+            break
     cmd = [exe, "--prop", prop_id, "--replay", path, "--errdir", errdir]
     if known_ids:
         cmd += ["--known", ",".join(known_ids)]
@@ -287,6 +302,11 @@ def check_property(prop_id, tier, seed, props):
     notes = []
 
     exe = build(prop_id, cfg)
+    for var in cfg.get("variants", []):
+        if any(tier in t.get("tiers", ["quick", "thorough"]) and t.get(tier) for t in var["targets"]):
+            var["_exe"] = build(prop_id, cfg, variant=var)
+            for t in var["targets"]:
+                VARIANT_EXE[(prop_id, t["name"])] = var["_exe"]
     t_built = time.time()
 
     # 1. regression tier: fixed findings and earlier minimal cases must pass;
@@ -334,6 +354,23 @@ def check_property(prop_id, tier, seed, props):
             else:
                 notes.append("unconfirmed %s in %s (%s): not reproducible 3x in isolation, treated as noise; replay %s"
                              % (f["kind"], res["target"], f["signature"], f["replay"]))
+
+    # 2b. variants: the same engine with another sanitizer set / other sources (e.g. ThreadSanitizer)
+    for var in cfg.get("variants", []):
+        vtargets = [t for t in var["targets"] if tier in t.get("tiers", ["quick", "thorough"]) and t.get(tier)]
+        if not vtargets:
+            continue
+        vexe = var.get("_exe") or build(prop_id, cfg, variant=var)
+        for tgt in vtargets:
+            res = run_target(vexe, prop_id, tgt, tier, seed, known_ids, outdir, replay_dir)
+            res["target"] = res["target"] + "@" + var["name"]
+            results.append(res)
+            for f in res["failures"]:
+                if f["confirmed"]:
+                    violations.append((f["replay"], "%s %s %s" % (res["target"], f["kind"], f["signature"])))
+                else:
+                    notes.append("unconfirmed %s in %s (%s): not reproducible 3x in isolation, treated as noise; replay %s"
+                                 % (f["kind"], res["target"], f["signature"], f["replay"]))
 
     # 3. coverage-guided tier (thorough only)
     fuzz_results = []
@@ -496,7 +533,16 @@ def main(argv):
         print("unknown property", what)
         return 2
     if replay:
-        exe = build(what, props[what])
+        tname = ""
+        for line in open(replay, errors="replace"):
+            if line.startswith("target "):
+                tname = line.split(" ", 1)[1].strip()
+                break
+        var = None
+        for v in props[what].get("variants", []):
+            if any(t["name"] == tname for t in v["targets"]):
+                var = v
+        exe = build(what, props[what], variant=var)
         known, _ = load_known(what)
         os.makedirs(os.path.join(BUILD, what, "run"), exist_ok=True)
         rc, out = run_replay(exe, what, replay, [e["id"] for e in known], os.path.join(BUILD, what, "run"))
